@@ -183,6 +183,25 @@ Theorem C07_no_descriptor_leak :
 Proof. exact no_descriptor_leak. Qed.
 Print Assumptions C07_no_descriptor_leak.
 
+(* ... in numbers: whenever no reload is in progress the process holds exactly ONE descriptor of
+   the listening socket of every served address, the serving instance's, and none of any other
+   address (what [EFds] events report of the real process is compared with this count) *)
+Theorem C07_one_descriptor_when_idle :
+  forall s a, reachable s -> rst s = RIdle ->
+  fdh s a = if mem a (addrs_of s (cur s)) then [cur s] else [].
+Proof. exact one_descriptor_when_idle. Qed.
+Print Assumptions C07_one_descriptor_when_idle.
+
+Example C07_one_descriptor_when_idle_nonvacuous :
+  match run (init [0; 1] [9]) [LCall [0; 5; 1; 9] 2; LLoadOk; LCbOk; LDup; LBind; LDup; LFds 0; LFds 5; LListenFail; LFds 0; LFds 5;
+                               LCall [1; 0] 0; LLoadOk; LCbOk; LDup; LDup; LAdv; LSpawn; LSpawn; LAdv; LStop; LStop; LReturn; LFds 0; LFds 1] with
+  | Some s => rst s = RIdle /\
+              filter (fun e => match e with EFds _ _ => true | _ => false end) (rev (hist s)) =
+              [EFds 0 2; EFds 5 1; EFds 0 1; EFds 5 0; EFds 0 1; EFds 1 1]
+  | None => False
+  end.
+Proof. vm_compute. split; reflexivity. Qed.
+
 (* ---- the rejected configuration never accepts ---- *)
 (* an instance whose configuration is not valid (fate 1, 2 or 3) never has an acceptor, in any
    reachable state — during its reload or at any later time *)
